@@ -118,6 +118,7 @@ type TableOptions struct {
 	BigDeltas       bool // allow deltas that push decode times beyond 2^32
 	ZeroSizes       bool // allow zero-size samples
 	ZeroCountStts   bool // allow stts entries with sample_count 0 (in front of split runs)
+	Huge            bool // co64 in every track and a 64-bit mdat header (File.StretchedPieces applies)
 }
 
 func runsOf(r *runner.Rand, n int, maxRun int, value func() int64) []int64 {
@@ -404,6 +405,12 @@ func RandomTables(r *runner.Rand, o TableOptions) *File {
 	f.MvhdVersion = byte(r.Intn(2))
 	f.MdatFirst = r.Chance(1, 3)
 	f.LargeMdat = r.Chance(1, 3)
+	if o.Huge {
+		f.LargeMdat = true
+		for _, t := range f.Tracks {
+			t.Co64 = true
+		}
+	}
 	if r.Chance(1, 5) {
 		f.FreeAfterMoov = r.Intn(9)
 	}
